@@ -81,6 +81,11 @@ W4rOps == Call("load", {K("N0","c")}) \cup {Simple("hot_reload"), NotifyOp({File
 W4nOps == Call("load", {K("N0","c")}) \cup {Simple("hot_reload"), NotifyOp({FileE("c","y")}), NotifyOp({FileE("b","x")}),
           EditOp(F("c","y"), CRef("b")), EditOp(F("b","x"), CVal(2))}
 
+(* W4x: an asset that is removed and loaded again is registered a second time (AddAsset for a key the *)
+(* reloader already knows): its NEW dependency set counts --------------------------------------------- *)
+W4xOps == Call("load", {K("N0","c")}) \cup Call("remove", {K("N0","c")}) \cup {Simple("hot_reload"), NotifyOp({FileE("b","x")}),
+          EditOp(F("c","y"), CRef("b")), EditOp(F("b","x"), CVal(2))}
+
 (* W4d: the shortest histories that re-wire and edit in one batch (D8) ------- *)
 W4dOps == Call("load", {K("L0","b"), K("N0","c")}) \cup {Simple("hot_reload"), NotifyOp({FileE("c","y"), FileE("b","x")}),
           EditOp(F("c","y"), CRef("b")), EditOp(F("b","x"), CVal(2))}
